@@ -3,7 +3,7 @@
    type A (a scalar, a vector of n_pcs values, any trailing block), so every statement holds for every
    number of trailing dimensions. *)
 From Coq Require Import ZArith List Lia Bool Arith.
-From PV Require Import Base.NpList C06.Model C06.Spec C06.Proofs C06.Proofs2 C06.Proofs3.
+From PV Require Import Base.NpList C06.Model C06.Spec C06.Proofs C06.Proofs2 C06.Proofs3 C06.Proofs4.
 Import ListNotations.
 Open Scope Z_scope.
 
@@ -306,3 +306,113 @@ Print Assumptions C06_pca_assemble.
 Example C06_pca_assemble_ex :
   pca_assemble 0 [9; 2; 5; 4] [2; 4; 9; 7] (fun ex => Some (map (fun s => 100 + s) ex)) = Some [109; 102; 0; 104].
 Proof. vm_compute; reflexivity. Qed.
+
+(* ====================== stage 3 ====================== *)
+
+(* THE CLOSED FORM of get_features / get_template_features, NaN rows included: on every well-formed store
+   and request the answer is [map closed_row ids] -- row p is computed from the store, the requested
+   channels and the p-th requested spike alone: its stored row (found by plain search in the spike-id
+   table, no lookup table), or the NaN row when a subset store does not hold the spike, densified with the
+   column row of the spike's template.  (The correspondence run judges the rule-generated large stores
+   through this theorem: the lookup-table model is quadratic on Coq lists.) *)
+Theorem C06_get_dense_closed : forall (A : Type) (zero nanc : A) (st : @store A) n_loc stpl ids chans,
+  Wf st n_loc stpl ids -> NoDup chans -> (forall c, In c chans -> 0 <= c) ->
+  get_features zero nanc st n_loc stpl ids chans = Ok (map (closed_row zero nanc st n_loc stpl chans) ids).
+Proof. exact (@get_dense_closed). Qed.
+Print Assumptions C06_get_dense_closed.
+
+Example C06_get_dense_closed_ex :
+  map (closed_row 0 99 ex_store 2 [0; 0; 1; 1; 0; 1; 0; 1] [0; 1; 2; 3]) [7; 3; 4] = [[0; 0; 30; 31]; [0; 0; 99; 99]; [10; 11; 0; 0]].
+Proof. vm_compute; reflexivity. Qed.
+
+(* the row returned for a spike does not depend on the rest of the request: other spikes, order, length *)
+Theorem C06_row_local : forall (A : Type) (zero nanc : A) (st : @store A) n_loc stpl ids ids' chans out out' p p' sp,
+  Wf st n_loc stpl ids -> Wf st n_loc stpl ids' -> NoDup chans -> (forall c, In c chans -> 0 <= c) ->
+  get_features zero nanc st n_loc stpl ids chans = Ok out -> get_features zero nanc st n_loc stpl ids' chans = Ok out' ->
+  nth_error ids p = Some sp -> nth_error ids' p' = Some sp ->
+  nth_error out p = nth_error out' p' /\ nth_error out p = Some (closed_row zero nanc st n_loc stpl chans sp).
+Proof. exact (@get_dense_row_local). Qed.
+Print Assumptions C06_row_local.
+
+Example C06_row_local_ex :
+  get_features 0 99 ex_store 2 [0; 0; 1; 1; 0; 1; 0; 1] [7; 3; 4] [0; 1; 2; 3] = Ok [[0; 0; 30; 31]; [0; 0; 99; 99]; [10; 11; 0; 0]] /\
+  get_features 0 99 ex_store 2 [0; 0; 1; 1; 0; 1; 0; 1] [4] [0; 1; 2; 3] = Ok [[10; 11; 0; 0]].
+Proof. split; vm_compute; reflexivity. Qed.
+
+(* the boolean well-formedness test evaluated by the correspondence run (duplicate-freeness by merge sort)
+   implies the premise Wf of the theorems above *)
+Theorem C06_wf_checker_sound : forall (A : Type) (st : @store A) n_loc stpl ids,
+  wf_b st n_loc stpl ids = true -> Wf st n_loc stpl ids.
+Proof. exact (@wf_b_sound). Qed.
+Print Assumptions C06_wf_checker_sound.
+
+Example C06_wf_checker_ex : wf_b ex_store 2 [0; 0; 1; 1; 0; 1; 0; 1] [7; 3; 4] = true /\
+                            wf_b ex_store 2 [0; 0; 1; 1; 0; 1; 0; 1] [7; 3; 7] = false.
+Proof. split; vm_compute; reflexivity. Qed.
+
+(* ---------- the dtype of _index_of's lookup table ---------- *)
+(* The result of _index_of does not depend on the integer type of its table as long as that type represents
+   -1 and every position below len(lookup) (for a signed type of [bits] bits: len(lookup) <= 2^(bits-1)) --
+   for EVERY arr and lookup, error exits included. *)
+Theorem C06_index_of_dtype : forall (cast : Z -> Z) arr lookup,
+  (forall v, -1 <= v < Z.max 1 (zlen lookup) -> cast v = v) ->
+  index_of_dt cast arr lookup = index_of arr lookup.
+Proof. exact index_of_dt_fits. Qed.
+Print Assumptions C06_index_of_dtype.
+
+Theorem C06_index_of_dtype_bits : forall bits arr lookup,
+  1 <= bits -> zlen lookup <= 2 ^ (bits - 1) ->
+  index_of_dt (wrap bits) arr lookup = index_of arr lookup.
+Proof. exact index_of_wrap_fits. Qed.
+Print Assumptions C06_index_of_dtype_bits.
+
+Example C06_index_of_dtype_ex :
+  index_of_dt (wrap 3) [7; 2; 9; -1] [5; 2; 7; 9] = Some [2; 1; 3; -1] /\ index_of [7; 2; 9; -1] [5; 2; 7; 9] = Some [2; 1; 3; -1].
+Proof. split; vm_compute; reflexivity. Qed.
+
+(* ... and the failure condition of a table that is too narrow, made explicit: the member at position q
+   comes back as wrap(q); with 16 bits, position 32768 reads -32768 (a valid index from the end). *)
+Theorem C06_index_of_narrow_table : forall bits lookup q x,
+  1 <= bits -> NoDup lookup -> (forall y, In y lookup -> 0 <= y) -> nth_error lookup q = Some x ->
+  index_of_dt (wrap bits) [x] lookup = Some [wrap bits (Z.of_nat q)] /\ index_of [x] lookup = Some [Z.of_nat q].
+Proof. exact index_of_wrap_member. Qed.
+Print Assumptions C06_index_of_narrow_table.
+
+Example C06_index_of_narrow_table_ex :
+  index_of_dt (wrap 3) [8] [5; 2; 7; 9; 8] = Some [-4] /\ index_of [8] [5; 2; 7; 9; 8] = Some [4] /\
+  wrap 16 32768 = -32768 /\ wrap 16 32767 = 32767.
+Proof. repeat split; vm_compute; reflexivity. Qed.
+
+(* ---------- one model object, many calls ---------- *)
+(* The accessors write nothing: in a session the answer to a call is the answer to that call alone,
+   whatever was asked before or after (what the history cases of the correspondence run compare with). *)
+Theorem C06_session_stateless : forall (A : Type) (zero nanc : A) (ds : @dataset A) pre c post,
+  nth_error (session zero nanc ds (pre ++ c :: post)) (length pre) = Some (answer zero nanc ds c).
+Proof. exact (@session_nth). Qed.
+Print Assumptions C06_session_stateless.
+
+Example C06_session_ex :
+  session 0 99 (mkdataset (Some (ex_store, 2%nat)) (Some (mkstore [[10; 11]; [20; 21]] (Some [[0; 2]; [1; 2]; [2; 0]]) (Some [2; 1]), 2%nat))
+                          [0; 0; 1; 1; 0; 1; 0; 1] 3)
+          [CallF [7; 4] [0; 1; 2; 3]; CallT [2; 1]; CallF [4] [3; 0]] =
+  [Some (Ok [[0; 0; 30; 31]; [10; 11; 0; 0]]); Some (Ok [[0; 10; 11]; [20; 0; 21]]); Some (Ok [[0; 10]])].
+Proof. vm_compute; reflexivity. Qed.
+
+(* ---------- which principal components are determined: exactly two spikes ---------- *)
+(* With two spikes the (scaled) covariance of a channel is the outer product d d^T of the difference of the
+   two waveforms: d is an eigenvector for |d|^2 and every vector orthogonal to d one for 0.  So for d <> 0
+   the leading component is +- d / |d| (clauses 27/28 judge component 0 and feature 0 against it) and
+   components 2 and 3 are not determined: claimed 2 = 1.  In general claimed k = min 3 (k - 1). *)
+Theorem C06_two_spike_leading : forall (w0 w1 : list (list Z)) k nsamp,
+  let d := fun j => nth k (nth j w1 []) 0 - nth k (nth j w0 []) 0 in
+  (forall j, zsum (map (fun j' => scov [w0; w1] k j j' * d j') (seq 0 nsamp)) =
+             zsum (map (fun j' => d j' * d j') (seq 0 nsamp)) * d j) /\
+  (forall v : nat -> Z, zsum (map (fun j' => d j' * v j') (seq 0 nsamp)) = 0 ->
+     forall j, zsum (map (fun j' => scov [w0; w1] k j j' * v j') (seq 0 nsamp)) = 0).
+Proof. exact two_spike_eigen. Qed.
+Print Assumptions C06_two_spike_leading.
+
+Example C06_two_spike_ex :
+  map (fun j => map (fun j' => scov [[[1]; [5]; [0]]; [[4]; [9]; [0]]] 0 j j') (seq 0 3)) (seq 0 3) = [[9; 12; 0]; [12; 16; 0]; [0; 0; 0]] /\
+  claimed 1 = 0%nat /\ claimed 2 = 1%nat /\ claimed 3 = 2%nat /\ claimed 4 = 3%nat /\ claimed 9 = 3%nat.
+Proof. repeat split; vm_compute; reflexivity. Qed.
